@@ -13,6 +13,7 @@ class TooBig(Exception):
 
 
 MAX_MONOMIALS = 6000
+MAX_BITS = 200000      # coefficient size guard (exact rationals of long float products explode)
 
 
 class Poly:
@@ -82,6 +83,10 @@ class Poly:
                     m[k] = n
         if len(m) > MAX_MONOMIALS:
             raise TooBig()
+        if m:
+            c0 = next(iter(m.values()))
+            if c0.numerator.bit_length() + c0.denominator.bit_length() > MAX_BITS:
+                raise TooBig()
         return Poly(m)
 
     def is_zero(a):
